@@ -493,10 +493,12 @@ pub fn gen_item(r: &mut Rng, cfg: &GenCfg) -> Item {
         0..=2 => 8u8,
         3 => 1,
         4 => r.range(1, 8) as u8,
-        5 => r.u8().max(1),
+        5 => r.u8(),
         6 => 2,
         _ => r.range(1, 7) as u8,
     };
+    // rarely the END type itself: the builders take any type value
+    let ty = if r.chance(1, 60) { 0 } else { ty };
     if ty == 8 {
         // PRIV: prefix + 1 + value <= 255
         let plen = match r.below(6) {
@@ -763,6 +765,8 @@ fn gen_packet_raw(r: &mut Rng, cfg: &GenCfg) -> Spec {
         }
         5 => {
             let dl = if r.below(1000) < cfg.invalid_pm { r.range(1, 11) } else { 4 * gen_len(r, &GenCfg { invalid_pm: 0, ..cfg.clone() }, 30) };
+            // very rarely a packet around the largest size the 16-bit length field can express
+            let dl = if cfg.big && cfg.invalid_pm > 0 && r.chance(1, 3000) { *r.pick(&[262_128usize, 262_132, 262_136, 262_140, 262_144, 262_148]) } else { dl };
             let count = if r.below(1000) < cfg.invalid_pm { 32 + r.below(224) as u8 } else { r.below(32) as u8 };
             let pt = match r.below(4) {
                 0 => r.range(192, 223) as u8,
